@@ -71,6 +71,8 @@ meta["valid_seed"] = bool(valid)
 meta["checks"] = {}
 if valid:
     ap = sh(["git", "-C", "/repo", "apply", str(seed / "patch.diff")])
+    if ap.returncode != 0:  # /repo may have moved on since the worktree was made
+        ap = sh(["git", "-C", "/repo", "apply", "--3way", str(seed / "patch.diff")])
     if ap.returncode != 0:
         print("patch does not apply to /repo:", ap.stderr[-300:])
         meta["applies"] = False
@@ -87,7 +89,7 @@ if valid:
                 if rc.returncode == 2:
                     print(rc.stderr[-1500:])
         finally:
-            sh(["git", "-C", "/repo", "checkout", "--", "."])
+            sh(["git", "-C", "/repo", "checkout", "HEAD", "--", "."])
             st = sh(["git", "-C", "/repo", "status", "--short"]).stdout
             if st.strip():
                 print("WARNING: /repo not clean:", st)
